@@ -73,7 +73,8 @@ def configs(tier):
     def add(key, part, **kw):
         d = dict(key=key, part=part, **kw)
         d.setdefault("mode", "fork")
-        d.setdefault("timeout_s", 150 if q else 1200)
+        d.setdefault("branch_timeout_ms", 8000)  # a fork check that times out keeps an infeasible path alive: be generous (loaded machines)
+        d.setdefault("timeout_s", 170 if q else 1200)
         d.setdefault("max_paths", 4000)
         out.append(d)
         return d
@@ -312,6 +313,16 @@ def guarded(E, f, *a, **k):
     return r
 
 
+def fork_signs(E):
+    """the Givens stubs carry the determinant choice as a symbolic sign s (s*s = 1); identities over a 3x3 frame decide in
+    milliseconds once s is fixed and take ~15 s with s symbolic: fork on every sign created so far"""
+    if E.symbolic:
+        from vt import sym
+
+        for v in list(getattr(sym.CTX, "unit_atoms", {}).values()):
+            sym.CTX.branch(v == 1)
+
+
 def call_warn(f, *a, **k):
     with warnings.catch_warnings(record=True) as w:
         warnings.simplefilter("always")
@@ -469,6 +480,7 @@ def harness(E, cfg):
         ret, w = GW(SV.truncated_svd, M, n_eigenvecs=k)
         if ret is None:
             return
+        fork_signs(E)
         E.prove("clamp_warning_iff_above_max", (len(w) > 0) == (k is not None and k > max(m, n)))
         check_triple(E, M, ret, m, n, k)
     elif part == "interface":
@@ -517,6 +529,7 @@ def harness(E, cfg):
         if ret is None:
             return
         E.prove("clamp_warning_iff_above_max", (len(w) > 0) == (k is not None and k > max(m, n)))
+        fork_signs(E)
         check_symeig_direct(E, M, ret, m, n, k, rank, flip, og)
     elif part == "symeig_gen":
         # input-from-output generation: M := U0 diag(sqrt(l)) V0^T from orthogonal U0 (m x m), V0 (n x n) and eigenvalues
@@ -562,6 +575,7 @@ def harness(E, cfg):
     elif part == "nn":
         m, n, k, variant, inp = cfg["m"], cfg["n"], cfg["k"], cfg["variant"], cfg["inp"]
         r = min(m, n)
+        E.q_timeout_ms = max(E.q_timeout_ms, 60000)  # counter-model search for 'finite' takes ~10 s on an idle core
         M, sv = generated_matrix(E, m, n)
         if E.symbolic:
             from vt import sym
@@ -591,10 +605,17 @@ def harness(E, cfg):
         nonneg = (lambda e: E.ge(e, 0)) if E.symbolic else (lambda e: bool(float(e) >= 0))
         # incremental core on purpose: it abstracts the (rational, root-laden) entries and settles these by case split + linear
         # reasoning (W = If(W0 < eps, avg, W0) with avg >= 0 assumed needs nothing else); nlsat would unfold every definition
-        E.fresh_solver = False
-        E.prove("W_nonneg", [nonneg(e) for e in np.asarray(W).ravel()])
-        E.prove("H_nonneg", [nonneg(e) for e in np.asarray(H).ravel()])
-        E.fresh_solver = True
+        # (when the incremental core does not refute within 5 s the query goes to nlsat, which is the better model finder)
+        for nm, F in (("W_nonneg", W), ("H_nonneg", H)):
+            conds = [nonneg(e) for e in np.asarray(F).ravel()]
+            if E.symbolic:
+                import z3
+
+                E.fresh_solver = False
+                r, _ = E._decide(z3.And([sym.bterm(c) for c in conds]), (), timeout_ms=5000)
+                E.fresh_solver = r != "unsat"
+            E.prove(nm, conds)
+            E.fresh_solver = True
         if E.symbolic:
             import z3
 
